@@ -177,8 +177,11 @@ def exit_check(q, kind):
     d = dict(zip(FIELDS, q))
     out = list(d["flags"])
     if d["inc"] != 1:
-        out.append("C03.d: an accepted %s is counted %s" % ("call" if kind == "call" else "destruction",
-                                                            "0 times" if d["inc"] == 0 else "more than once"))
+        if kind == "call":
+            out.append("C03.d: an accepted call is counted %s" % ("0 times" if d["inc"] == 0 else "more than once"))
+        else:
+            out.append("C05.d.4: a monitored destruction must count as having happened exactly once, also when it "
+                       "is out of sequence; on this path it is counted %s" % ("0 times" if d["inc"] == 0 else "more than once"))
     if d["inc"] >= 1 and not d["rp"] and not (kind == "death" and d["satf"] is False):
         out.append("C05.d.3: a matched step does not retire its predecessors on this path "
                    "(something registered before it could match again)")
@@ -258,7 +261,7 @@ def report(ctx, tu, prefix_filter, unit=None):
                     continue
                 if kind == "death" and rid in ("C03.d", "C07.b", "C08.b", "C01.b"):
                     continue
-                if kind == "call" and rid in ("C13.d",):
+                if kind == "call" and rid in ("C13.d", "C05.d.4"):
                     continue
                 if rid in got:
                     m, tr = got[rid]
@@ -270,4 +273,4 @@ def report(ctx, tu, prefix_filter, unit=None):
     return rules_seen
 
 
-ALL_RULES = ["C01.b", "C03.b", "C03.d", "C05.d.1", "C05.d.2", "C05.d.3", "C06.c", "C07.b", "C08.b", "C13.d"]
+ALL_RULES = ["C01.b", "C03.b", "C03.d", "C05.d.1", "C05.d.2", "C05.d.3", "C05.d.4", "C06.c", "C07.b", "C08.b", "C13.d"]
